@@ -3,8 +3,12 @@
     hash, size <= capacity, per-sender index = the pool's transactions of the
     sender in arrival order and <= limit, latest list = a suffix of the arrival
     order of bounded length, byte and fee totals = sums over the contents,
-    short-hash index = a sub-view of the contents.  [sh_agrees]: every pooled
-    transaction is found under its short hash. *)
+    short-hash index = a sub-view of the contents that is never stale (unique
+    keys, every entry names a pooled transaction with that short hash).
+    [sh_agrees]: every pooled transaction is found under its short hash.
+    [sh_owner st h t]: [t] is pooled under hash [h] and is what the lookup of its
+    short hash returns.  [sh_covers]: the short-hash lookup of every pooled
+    transaction is non-empty. *)
 From Coq Require Import List ZArith NArith Bool.
 From C33 Require Import C21.Model C21.Spec C21.ProofsLm C21.ProofsInv C21.ProofsMain C21.ProofsSpec.
 Import ListNotations.
@@ -35,8 +39,57 @@ Theorem C21_block_txs_gone : forall sh c st now height bt hs h,
 Proof. exact block_txs_gone. Qed.
 Print Assumptions C21_block_txs_gone.
 
+(** SHashTxCache.Remove deletes an entry only for the transaction that owns it
+    (chain33 a576c70): over any event, the transaction found under a short hash
+    keeps its entry as long as it stays pooled, whatever collides with it *)
+Theorem C21_shash_owner_kept : forall sh c st e h t,
+  1 <= c_peracc c -> consistent sh c st -> sh_owner sh st h t ->
+  In h (keys (s_q (fst (step sh c st e)))) -> sh_owner sh (fst (step sh c st e)) h t.
+Proof. exact step_owner. Qed.
+Print Assumptions C21_shash_owner_kept.
+
+(** a transaction accepted while no pooled transaction has its short hash gets the entry *)
+Theorem C21_shash_fresh_indexed : forall sh c st now t,
+  1 <= c_peracc c -> c_qcap c <= c_shmax c -> consistent sh c st ->
+  snd (step sh c st (EPush now t)) = E_OK ->
+  mem_n (sh (t_h t)) (map sh (keys (s_q st))) = false ->
+  sh_owner sh (fst (step sh c st (EPush now t))) (t_h t) t.
+Proof. intros sh c st now t. cbn [step]. apply cache_push_fresh_owner. Qed.
+Print Assumptions C21_shash_fresh_indexed.
+
+(** all histories: a transaction accepted while no pooled transaction had its
+    short hash is found under its short hash after every later event up to its
+    removal (boolean guards: no collision at the moment of its push; pooled
+    after every later event), whatever collisions happen afterwards *)
+Theorem C21_shash_first_come_found : forall sh c es1 now t es2,
+  1 <= c_peracc c -> c_qcap c <= c_shmax c ->
+  let s0 := run sh c init es1 in
+  let s1 := fst (step sh c s0 (EPush now t)) in
+  snd (step sh c s0 (EPush now t)) = E_OK ->
+  mem_n (sh (t_h t)) (map sh (keys (s_q s0))) = false ->
+  forallb (fun s => mem_n (t_h t) (keys (s_q s))) (run_states sh c s1 es2) = true ->
+  sh_owner sh (run sh c s1 es2) (t_h t) t.
+Proof. exact first_come_found. Qed.
+Print Assumptions C21_shash_first_come_found.
+
+(** non-vacuity, and the earlier refutation witness repaired: push A, push B
+    (same short hash), remove B — the pool is not injective along the way, A is
+    found at the end *)
+Example C21_owner_kept_under_collision :
+  let s1 := fst (step wsh wcfg init (EPush 0 wA)) in
+  snd (step wsh wcfg init (EPush 0 wA)) = E_OK
+  /\ mem_n (wsh 1%N) (map wsh (keys (s_q init))) = false
+  /\ forallb (fun s => mem_n 1%N (keys (s_q s))) (run_states wsh wcfg s1 wevents_old) = true
+  /\ map (fun s => map fst (s_q s)) (run_states wsh wcfg s1 wevents_old) = [[1; 2]; [1]]%N
+  /\ forallb (sh_inj_pool wsh) (run_states wsh wcfg s1 wevents_old) = false
+  /\ lm_get (wsh 1%N) (s_sh (run wsh wcfg s1 wevents_old)) = Some wA.
+Proof. exact example_owner_kept. Qed.
+Print Assumptions C21_owner_kept_under_collision.
+
 (** the short-hash clause at full strength (guarded only by injectivity on the
-    final pool) is false for the code as it is ... *)
+    final pool) is still false: a transaction pushed while another pooled one
+    has its short hash is never indexed, also not when that one leaves (push A,
+    push B, remove A: B is pooled alone and its lookup is empty) ... *)
 Definition C21_shash_full : Prop := shash_full_claim.
 
 Theorem C21_refuted_shash : ~ C21_shash_full.
@@ -67,10 +120,19 @@ Proof. exact oracle_base. Qed.
 Print Assumptions C21_oracle_accepts_invariant.
 
 Theorem C21_oracle_accepts_short : forall sh c hashes senders err st,
-  consistent sh c st -> sh_agrees sh st ->
+  consistent sh c st -> sh_covers sh st ->
   spec_short hashes (observe sh senders hashes err st) = true.
 Proof. intros sh c hashes senders err st K A. exact (oracle_short sh c senders hashes err st K A). Qed.
 Print Assumptions C21_oracle_accepts_short.
+
+(** what the two short-hash clauses of the oracle amount to: a pooled
+    transaction with which no other pooled one shares the short hash is found *)
+Theorem C21_oracle_short_meaning : forall sh c st h t,
+  consistent sh c st -> sh_covers sh st -> In (h, t) (qtx st) ->
+  (forall h', In h' (keys (qtx st)) -> sh h' = sh h -> h' = h) ->
+  lm_get (sh h) (s_sh st) = Some t.
+Proof. intros sh c st h t K A. exact (oracle_short_self sh c st K h t A). Qed.
+Print Assumptions C21_oracle_short_meaning.
 
 Theorem C21_oracle_accepts_block : forall sh c st now height bt hs senders hashes err,
   consistent sh c st -> 1 <= c_peracc c ->
